@@ -324,12 +324,14 @@ def e2e_grid():
     n = 0
     try:
         t = datashard.create_table(root + "/t", schema=schema)
+        L = "u" * 40
         rows = [{"k": 0, "c": None, "s": None}, {"k": 1, "c": nan, "s": ""}, {"k": 2, "c": 0.5, "s": "a"}, {"k": 3, "c": -0.0, "s": "é"},
-                {"k": 4, "c": float("inf"), "s": "b"}, {"k": 5, "c": 0.5, "s": "a"}]
+                {"k": 4, "c": float("inf"), "s": "b"}, {"k": 5, "c": 0.5, "s": "a"}, {"k": 6, "c": 1.0, "s": L + "a"}, {"k": 7, "c": 2.0, "s": L + "z"}]
         t.append_records(rows[:3])
-        t.append_records(rows[3:])
+        t.append_records(rows[3:6])
+        t.append_records(rows[6:])
         conds = []
-        for col, lits in (("c", [0.5, 0.0, float("inf")]), ("s", ["a", "", "é"])):
+        for col, lits in (("c", [0.5, 0.0, float("inf")]), ("s", ["a", "", "é", "u" * 40 + "z", "u" * 40 + "m"])):
             for v in lits:
                 for op in ("==", "!=", "<", "<=", ">", ">="):
                     conds.append((col, op, v))
